@@ -1,1 +1,283 @@
-// harnesses for module proxy (included under cfg(kani))
+// C11: ProxySettings::for_url, ProxySettingsBuilder, ProxySettings::from_env.
+
+mod verif_proxy {
+    use super::*;
+    use crate::verif::{ascii_lower, make_url, HostSpec, UrlSpec};
+
+    /// stub for str::to_lowercase (ASCII only; non-ASCII entries are outside the claim)
+    pub fn to_lowercase_ascii(s: &str) -> String {
+        let b = s.as_bytes();
+        let mut v: Vec<u8> = Vec::with_capacity(b.len());
+        let mut i = 0;
+        while i < b.len() {
+            v.push(ascii_lower(b[i]));
+            i += 1;
+        }
+        unsafe { String::from_utf8_unchecked(v) }
+    }
+
+    fn eq_ci(a: &[u8], b: &[u8]) -> bool {
+        if a.len() != b.len() {
+            return false;
+        }
+        let mut i = 0;
+        while i < a.len() {
+            if ascii_lower(a[i]) != ascii_lower(b[i]) {
+                return false;
+            }
+            i += 1;
+        }
+        true
+    }
+
+    #[derive(PartialEq, Eq, Clone, Copy)]
+    enum Rel {
+        Equal,
+        Subdomain,
+        Unrelated,
+    }
+
+    /// Reference relation between a host and one no-proxy entry (case-insensitive).
+    fn relation(host: &[u8], e: &[u8]) -> Rel {
+        if e.is_empty() {
+            return Rel::Unrelated;
+        }
+        if eq_ci(host, e) {
+            return Rel::Equal;
+        }
+        if host.len() > e.len() {
+            let cut = host.len() - e.len();
+            if host[cut - 1] == b'.' && eq_ci(&host[cut..], e) {
+                return Rel::Subdomain;
+            }
+        }
+        Rel::Unrelated
+    }
+
+    fn host_alpha(b: u8) -> bool {
+        b == b'a' || b == b'b' || b == b'.' || b == b'-'
+    }
+    fn entry_alpha(b: u8) -> bool {
+        b == b'a' || b == b'b' || b == b'A' || b == b'B' || b == b'.' || b == b'-'
+    }
+
+    fn any_host<const HL: usize>() -> [u8; HL] {
+        let h: [u8; HL] = kani::any();
+        let mut i = 0;
+        while i < HL {
+            kani::assume(host_alpha(h[i]));
+            i += 1;
+        }
+        h
+    }
+    fn any_entry<const EL: usize>() -> [u8; EL] {
+        let e: [u8; EL] = kani::any();
+        let mut i = 0;
+        while i < EL {
+            kani::assume(entry_alpha(e[i]));
+            i += 1;
+        }
+        // an entry given to the builder with a leading dot is not covered by the property text
+        // (only NO_PROXY entries are said to lose a leading dot): oracle is silent, so exclude
+        if EL > 0 {
+            kani::assume(e[0] != b'.');
+        }
+        e
+    }
+
+    /// domain host of HL symbolic bytes, two entries of E1/E2 symbolic bytes (E2 == 99: one entry only,
+    /// E1 == 99: no entry)
+    fn for_url_domain<const HL: usize, const E1: usize, const E2: usize>(n_entries: usize, https: bool) {
+        let host = any_host::<HL>();
+        let url = make_url(&UrlSpec::simple(https, &host));
+        let have_http: bool = kani::any();
+        let have_https: bool = kani::any();
+        let disabled: bool = kani::any();
+
+        let p1 = make_url(&UrlSpec::simple(false, b"p"));
+        let p2 = make_url(&UrlSpec::simple(true, b"q"));
+        let e1 = any_entry::<E1>();
+        let e2 = any_entry::<E2>();
+        // fields set directly (the builder is decided separately in c11_*_builder_*): entries keep
+        // their symbolic letter case, for_url itself must compare case-insensitively
+        let mut hosts: Vec<String> = Vec::with_capacity(2);
+        if n_entries >= 1 {
+            hosts.push(unsafe { String::from_utf8_unchecked(e1.to_vec()) });
+        }
+        if n_entries >= 2 {
+            hosts.push(unsafe { String::from_utf8_unchecked(e2.to_vec()) });
+        }
+        let s = ProxySettings {
+            http_proxy: if have_http { Some(p1) } else { std::mem::forget(p1); None },
+            https_proxy: if have_https { Some(p2) } else { std::mem::forget(p2); None },
+            disable_proxies: disabled,
+            no_proxy_hosts: hosts,
+        };
+
+        let got = s.for_url(&url);
+
+        let r1 = if n_entries >= 1 { relation(&host, &e1) } else { Rel::Unrelated };
+        let r2 = if n_entries >= 2 { relation(&host, &e2) } else { Rel::Unrelated };
+        let bypass = r1 != Rel::Unrelated || r2 != Rel::Unrelated;
+        let configured = if https { s.https_proxy.as_ref() } else { s.http_proxy.as_ref() };
+        let want_proxy = !disabled && !bypass && configured.is_some();
+        if want_proxy {
+            assert!(got.is_some(), "C11: proxy configured and host not on the no-proxy list, but no proxy chosen");
+            assert!(
+                std::ptr::eq(got.unwrap(), configured.unwrap()),
+                "C11: proxy of the wrong scheme chosen"
+            );
+        } else {
+            assert!(got.is_none(), "C11: proxy used although disabled / not configured / host is on the no-proxy list");
+        }
+        kani::cover!(want_proxy, "must: proxy chosen");
+        kani::cover!(!disabled && configured.is_some() && bypass, "bypass by no-proxy entry");
+        kani::cover!(r1 == Rel::Subdomain, "subdomain relation occurs");
+        std::mem::forget(s);
+        std::mem::forget(url);
+    }
+
+    macro_rules! for_url_shape {
+        ($name:ident, $hl:expr, $e1:expr, $e2:expr, $n:expr) => {
+            for_url_shape!($name, $hl, $e1, $e2, $n, false);
+        };
+        ($name:ident, $hl:expr, $e1:expr, $e2:expr, $n:expr, $https:expr) => {
+            #[kani::proof]
+            #[kani::unwind(12)]
+            #[kani::stub(str::to_lowercase, to_lowercase_ascii)]
+            fn $name() {
+                for_url_domain::<$hl, $e1, $e2>($n, $https);
+            }
+        };
+    }
+
+    for_url_shape!(c11_q_forurl_h3_none, 3, 0, 0, 0);
+    for_url_shape!(c11_q_forurl_h1_e1, 1, 1, 0, 1);
+    for_url_shape!(c11_q_forurl_h3_e1, 3, 1, 0, 1);
+    for_url_shape!(c11_q_forurl_h3_e0, 3, 0, 0, 1);
+    for_url_shape!(c11_q_forurl_h3_e3, 3, 3, 0, 1);
+    for_url_shape!(c11_q_forurl_h4_e2, 4, 2, 0, 1, true);
+    for_url_shape!(c11_q_forurl_h5_e3, 5, 3, 0, 1);
+    for_url_shape!(c11_q_forurl_h3_e1_e0, 3, 1, 0, 2, true);
+    for_url_shape!(c11_q_forurl_h4_e1_e2, 4, 1, 2, 2);
+    for_url_shape!(c11_t_forurl_h2_e1, 2, 1, 0, 1);
+    for_url_shape!(c11_t_forurl_h2_e2, 2, 2, 0, 1);
+    for_url_shape!(c11_t_forurl_h2_e3, 2, 3, 0, 1);
+    for_url_shape!(c11_t_forurl_h4_e1, 4, 1, 0, 1);
+    for_url_shape!(c11_t_forurl_h4_e3, 4, 3, 0, 1, true);
+    for_url_shape!(c11_t_forurl_h4_e4, 4, 4, 0, 1);
+    for_url_shape!(c11_t_forurl_h5_e1, 5, 1, 0, 1);
+    for_url_shape!(c11_t_forurl_h5_e2, 5, 2, 0, 1, true);
+    for_url_shape!(c11_t_forurl_h5_e4, 5, 4, 0, 1);
+    for_url_shape!(c11_t_forurl_h5_e5, 5, 5, 0, 1);
+    for_url_shape!(c11_t_forurl_h6_e3, 6, 3, 0, 1);
+    for_url_shape!(c11_t_forurl_h5_e2_e3, 5, 2, 3, 2);
+    for_url_shape!(c11_t_forurl_h5_e3_e1, 5, 3, 1, 2);
+
+    #[kani::proof]
+    #[kani::unwind(12)]
+    #[kani::stub(str::to_lowercase, to_lowercase_ascii)]
+    fn c11_qtwin_forurl() {
+        for_url_domain::<3, 1, 0>(1, false);
+        assert!(false, "twin: must be reported as FAILURE");
+    }
+
+    /// IP-literal hosts: exact entry bypasses, unrelated entry does not (suffix relation on an IP
+    /// literal is outside the property text: oracle silent there).
+    fn for_url_ip<const EL: usize>(v6: bool, https: bool) {
+        let spec = UrlSpec {
+            https,
+            user: b"",
+            pass: None,
+            host: if v6 {
+                HostSpec::V6([0, 0, 0, 0, 0, 0, 0, 1], b"::1")
+            } else {
+                HostSpec::V4([10, 0, 0, 1], b"10.0.0.1")
+            },
+            port: None,
+            path: b"",
+            query: None,
+            fragment: None,
+        };
+        let url = make_url(&spec);
+        let host_text: &[u8] = if v6 { b"[::1]" } else { b"10.0.0.1" };
+        let e: [u8; EL] = kani::any();
+        let mut i = 0;
+        while i < EL {
+            kani::assume(e[i] == b'0' || e[i] == b'1' || e[i] == b'.' || e[i] == b':' || e[i] == b']' || e[i] == b'[');
+            i += 1;
+        }
+        if EL > 0 {
+            kani::assume(e[0] != b'.');
+        }
+        let p1 = make_url(&UrlSpec::simple(false, b"p"));
+        let p2 = make_url(&UrlSpec::simple(false, b"q"));
+        let s = ProxySettings {
+            http_proxy: Some(p1),
+            https_proxy: Some(p2),
+            disable_proxies: false,
+            no_proxy_hosts: vec![unsafe { String::from_utf8_unchecked(e.to_vec()) }],
+        };
+        let got = s.for_url(&url);
+        match relation(host_text, &e) {
+            Rel::Equal => assert!(got.is_none(), "C11: IP host equal to a no-proxy entry still proxied"),
+            Rel::Unrelated => assert!(got.is_some(), "C11: IP host bypasses the proxy for an unrelated no-proxy entry"),
+            Rel::Subdomain => {}
+        }
+        kani::cover!(got.is_some(), "must: proxied");
+        std::mem::forget(s);
+        std::mem::forget(url);
+    }
+
+    macro_rules! for_url_ip_shape {
+        ($name:ident, $el:expr, $v6:expr, $https:expr) => {
+            #[kani::proof]
+            #[kani::unwind(12)]
+            #[kani::stub(str::to_lowercase, to_lowercase_ascii)]
+            fn $name() {
+                for_url_ip::<$el>($v6, $https);
+            }
+        };
+    }
+    for_url_ip_shape!(c11_q_forurl_ip4_e1, 1, false, false);
+    for_url_ip_shape!(c11_q_forurl_ip4_e3, 3, false, true);
+    for_url_ip_shape!(c11_t_forurl_ip4_e8, 8, false, false);
+    for_url_ip_shape!(c11_q_forurl_ip6_e2, 2, true, false);
+    for_url_ip_shape!(c11_t_forurl_ip6_e5, 5, true, true);
+
+    /// The builder stores every entry (case-insensitively equal to what was given, in order) and the
+    /// proxies in the right slots; proxies are enabled by default.
+    fn builder_case<const E1: usize, const E2: usize>() {
+        let e1 = any_entry::<E1>();
+        let e2 = any_entry::<E2>();
+        let p1 = make_url(&UrlSpec::simple(false, b"p"));
+        let which: bool = kani::any();
+        let b = ProxySettings::builder();
+        let b = if which { b.http_proxy(p1) } else { b.https_proxy(Some(p1)) };
+        let s = b
+            .add_no_proxy_host(unsafe { std::str::from_utf8_unchecked(&e1) })
+            .add_no_proxy_host(unsafe { String::from_utf8_unchecked(e2.to_vec()) })
+            .build();
+        assert!(s.no_proxy_hosts.len() == 2, "C11: builder lost or invented a no-proxy entry");
+        assert!(eq_ci(s.no_proxy_hosts[0].as_bytes(), &e1), "C11: builder altered a no-proxy entry");
+        assert!(eq_ci(s.no_proxy_hosts[1].as_bytes(), &e2), "C11: builder altered a no-proxy entry");
+        assert!(!s.disable_proxies, "C11: builder disables proxies");
+        assert!(s.http_proxy.is_some() == which && s.https_proxy.is_some() == !which, "C11: builder stored the proxy under the wrong scheme");
+        kani::cover!(which, "must: http slot");
+        kani::cover!(!which, "must: https slot");
+        std::mem::forget(s);
+    }
+
+    #[kani::proof]
+    #[kani::unwind(12)]
+    #[kani::stub(str::to_lowercase, to_lowercase_ascii)]
+    fn c11_q_builder_e2_e0() {
+        builder_case::<2, 0>();
+    }
+    #[kani::proof]
+    #[kani::unwind(12)]
+    #[kani::stub(str::to_lowercase, to_lowercase_ascii)]
+    fn c11_t_builder_e3_e3() {
+        builder_case::<3, 3>();
+    }
+}
